@@ -155,7 +155,7 @@ pub fn property() -> Property {
         assumptions: &["reference pseudo-legal and legal sets (perft-validated)"],
         subchecks: vec![SubCheck {
             name: "positions_x_all_strings",
-            driver: Driver::Generated { gen: gen_pos_case, genome_len: 192, quick: 50_000, thorough: 1_200_000 },
+            driver: Driver::Generated { gen: gen_pos_case, genome_len: 192, quick: 100_000, thorough: 1_200_000 },
             check: check_case,
             configs: Configs::Both,
             required: &["rt_castling", "rt_double_step", "rt_en_passant", "rt_promotion", "all_20481_strings", "black_to_move"],
